@@ -196,6 +196,14 @@ class PE:
                         v, (int, str, bool, type(None), float)):
                     return ast.Constant(v)
                 return node
+
+            def visit_IfExp(self, node):
+                # a conditional expression whose test is decided on this path
+                t = pe.ev(node.test, env)
+                if t is not UNKNOWN:
+                    return self.visit(node.body if t else node.orelse)
+                self.generic_visit(node)
+                return node
         return S().visit(clone(expr))
 
     def _block(self, stmts, env, guards, calls, cont):
